@@ -25,7 +25,7 @@ RULE = (
     "model was loaded): rules run(model, target, cache on/off, via main.execute | main.main with patched argv | the "
     "aas-core-codegen script in a subprocess), edit(model: append comment / rename class / change a bound / whitespace "
     "only incl. a blank first line), revert, clear_cache, foreign_entry (the entry of the current text is replaced by the "
-    "entry of another model), swap_output_dir, and a compound cycle cached-run/edit/cached-run/revert/cached-run. Oracle "
+    "entry of another model), swap_output_dir, and a compound cycle cached-run/edit/cached-run/revert/cached-run/uncached-run. Oracle "
     "per run: (status, stdout, stderr with paths replaced, output tree) equals the reference = the same text/target in a "
     "brand-new TMPDIR without cache; cache=off: directory listing (names, sizes, mtimes) of TMPDIR unchanged and the audit "
     "hook saw no open/mkdir/rename/remove inside TMPDIR and no mutation outside the output dir; cache=on: exactly "
@@ -363,7 +363,9 @@ FRONT_END_ERRORS = ("Failed to resolve the implementation-specific snippets", "F
 
 def cycle_steps(i: int, target: str, how: str, arg: int, via: str) -> List[Dict[str, Any]]:
     r = {"op": "run", "model": i, "target": target, "cache": True, "via": via}
-    return [dict(r), {"op": "edit", "model": i, "how": how, "arg": arg}, dict(r), {"op": "revert", "model": i}, dict(r)]
+    # ... and one run without the flag while the cache is warm for this very text
+    return [dict(r), {"op": "edit", "model": i, "how": how, "arg": arg}, dict(r), {"op": "revert", "model": i}, dict(r),
+            dict(r, cache=False)]
 
 
 def has_cycle(steps: List[Dict[str, Any]]) -> bool:
@@ -435,7 +437,7 @@ def make_machine(ctx: runner.Ctx, refs: Dict[Any, Any], max_steps: int) -> Any:
             for b, m in self.ex.fails[n_before:]:
                 ctx.fail(b, {"models": self.models, "steps": list(self.steps)}, m)
 
-        @rule(i=idx, tgt=targets, cache=st.booleans(), via=vias)
+        @rule(i=idx, tgt=targets, cache=st.sampled_from([False, False, False, True]), via=vias)
         def run(self, i: int, tgt: str, cache: bool, via: str) -> None:
             self._do({"op": "run", "model": i, "target": tgt, "cache": cache, "via": via})
 
@@ -584,8 +586,11 @@ def shard(ctx: runner.Ctx) -> None:
     from hypothesis import HealthCheck, Phase, settings
     from hypothesis.stateful import run_state_machine_as_test
 
+    import time
+
     fsaudit.install()
-    n_hist = ctx.n(160, 3_000)
+    t_start = time.time()
+    n_hist = ctx.n(96, 3_000)
     steps = 12 if ctx.quick else 30
     refs = {}  # type: Dict[Any, Any]
     Machine = make_machine(ctx, refs, max_steps=3 * steps)
@@ -601,7 +606,9 @@ def shard(ctx: runner.Ctx) -> None:
             raise
         ctx.fail(f"machine-raised:{runner.exc_bucket(e)}", {"models": [], "steps": []}, runner.exc_text(e))
 
-    n_tr = ctx.n(320, 16_000)
+    ctx.notes["wall_machine_s"] = round(time.time() - t_start, 1)
+    t_start = time.time()
+    n_tr = ctx.n(192, 16_000)
 
     def one(case: Dict[str, Any]) -> None:
         status, fails = transparency(case["text"], ctx.scratch)
@@ -614,6 +621,7 @@ def shard(ctx: runner.Ctx) -> None:
             ctx.fail(b, {"transparency": case["text"]}, m)
 
     runner.hyp_run(transparency_cases(), one, n_tr, ctx.seed)
+    ctx.notes["wall_transparency_s"] = round(time.time() - t_start, 1)
 
 
 def replay(case: Any) -> List[Tuple[str, str]]:
